@@ -134,6 +134,8 @@ def run(chk):
                 meta = json.load(open(mp))
                 if meta.get('breaks_property') == pid:
                     cases.append(('seeded:' + name, 'break', ('patch', os.path.join(sd, name, 'patch.diff'))))
+                elif meta.get('kind') == 'neutral':
+                    cases.append(('seeded:' + name, 'neutral', ('patch', os.path.join(sd, name, 'patch.diff'))))
     tmp = tempfile.mkdtemp(prefix='mctpsa-thorough-')
     try:
         base_root = os.path.join(tmp, 'base')
